@@ -153,6 +153,17 @@ pub fn check_new(_ctx: &Ctx, c: &NewCase, acc: &mut Acc) -> Result<(), Fail> {
             );
         }
     }
+    // no memory of earlier calls: the same call again gives the same answer,
+    // and size 0 is refused whatever was asked just before
+    let again = catch(|| BlockValue::new(num, c.more, size)).ok().map(|r| r.ok());
+    let first = catch(|| BlockValue::new(num, c.more, size)).ok().map(|r| r.ok());
+    ensure!(again == first, "c13-new-not-repeatable", "BlockValue::new({num}, {}, {size}) gives different answers when repeated: {again:?} / {first:?}", c.more);
+    ensure!(
+        matches!(catch(|| BlockValue::new(num, c.more, 0)), Ok(Err(_))),
+        "c13-new-accepted-invalid",
+        "BlockValue::new({num}, {}, 0) right after a call with size {size} did not fail",
+        c.more
+    );
     if !size.is_power_of_two() || size < 16 || must_fail {
         acc.nontrivial_enum();
     }
